@@ -23,7 +23,7 @@ def ref_oracle(ctx, sp, o, what='optimum of the independent formulation'):
     if o.get('solve') == 'optimal' and r['status'] == 'optimal':
         # sound against an imperfect reference solver: every comparison uses values of points that are feasible in the
         # reference model.  v_fix = best reference value with the flows fixed to EAO's dispatch.
-        tol = 1e-6 * (1 + abs(r['value']) + abs(o['value']))
+        tol = 1e-5 * (1 + abs(r['value']) + abs(o['value']))     # the dispatch handed over carries the solver's tolerance
         if r.get('eao_dispatch_in_reference') != 'optimal':
             ctx.violation('impl-violation', {'spec': sp, 'observed': {'EAO dispatch in the reference model': r.get('eao_dispatch_in_reference')},
                                              'expected': 'the dispatch EAO returns is feasible for the reference model'}, trigger={'what': 'dispatch infeasible in reference'})
